@@ -31,6 +31,9 @@ type runner struct {
 	batch  []pending
 	shrunk map[string]int
 	seen   int
+
+	ms      *common.Model // the translated source (srcmodel.go), nil if it could not be built
+	srcSeen int
 }
 
 func (rn *runner) add(p pending) {
@@ -61,6 +64,7 @@ func (rn *runner) flush() {
 			rn.mismatch(p, ans[i])
 		}
 	}
+	rn.flushSrc(reqs, impls)
 	rn.batch = rn.batch[:0]
 }
 
@@ -148,6 +152,8 @@ func main() {
 	rn := &runner{f: f, res: res, m: m, shrunk: map[string]int{}}
 	switch prop {
 	case "C18":
+		rn.startSrc()
+		defer rn.closeSrc()
 		runC18(rn)
 	default:
 		runC19(rn)
